@@ -2,6 +2,17 @@ NOTES = ('Bounded-exhaustive model checking of the real implementation; see DESI
          'Known genuine defects are listed in known_findings.json.')
 NOT_APPLICABLE = {}
 CHECKS = {
+ 'C12': dict(engine='E3', design_ref='4/C12',
+    technique='exhaustive enumeration (full product connection kind x interface positions x panel-pair letters x order in the global vector x leading panel; penalty-constant routes) on the real PanelAssembly.get_k0_conn / connection kernels / calc_kt_kr against the quadrature Hessian of the interface mismatch energy',
+    text='Every connection matrix is compared with the Hessian of kt/2 Int|jump u|^2 + kr/2 Int(jump rotation)^2 evaluated with both panels own series at their offsets in the global vector; '
+         'symmetry, positive semi-definiteness, zero energy for rigid translations continuous across the interface, proportionality to (kt, kr) through the kernels, '
+         'symmetry / series formula / linear modulus scaling of the derived penalty constants.',
+    note='interface kinematics of the perpendicular base-flange and face-to-face kinds are taken as documented for the package (u1=u2, v1=w2, w1=-v2; u1+d w1,x=u2 ...); kernels cannot be regenerated in the sandbox'),
+ 'C13': dict(engine='E3', design_ref='4/C13',
+    technique='exhaustive enumeration of compositions (all panel sequences up to a length; all subsets of skin cut positions x all stiffener sequences up to length 2 over six stiffener letters x flat/curved) with differential oracles between real executions',
+    text='Global stiffness, geometric and mass matrices and force vectors must equal the sum of every component evaluated stand-alone on fresh objects at harness-computed offsets plus the connection matrix; '
+         'size == sum of component sizes; re-cutting a uniformly laminated skin changes nothing; each stiffener adds a symmetric positive semi-definite stiffness and mass contribution confined to the skin and its own amplitudes.',
+    note='expected values come from other real executions (differential oracle); the absolute correctness of the component kernels is C02-C04/C12 business'),
  'C08': dict(engine='E3', design_ref='4/C08',
     technique='exhaustive enumeration (full product of model x laminate x flag base x orders x state letters x Gauss letters x laminate-table forms; assembly compositions x panel order x state) on the real calc_fint/calc_kT against the reference energy gradient/Hessian at the same quadrature points and against finite differences of the package itself along a complete basis',
     text='For every element: tangent symmetric; internal force and tangent equal the gradient and Hessian of U(c) evaluated by an independent quadrature reference; '
